@@ -1,6 +1,7 @@
 """C17 - IntervalRegressor bootstraps over the whole training set, aggregates exactly."""
 import z3
 from pyvc.api import Contract, contract
+from contracts._frames import query_frame
 from pyvc.values import Obj, NdArr, z
 from pyvc import models
 
@@ -161,6 +162,7 @@ def _pred(E, s, X, k, r):
 
 
 @contract(F + "::IntervalRegressor.predict_all", "C17")
+@query_frame("self")
 class PredictAll(Contract):
     variants = ["float64", "int64", "float32"]      # the dtype of the query batch must not change what is stored
 
@@ -197,6 +199,7 @@ class PredictAll(Contract):
 
 
 @contract(F + "::IntervalRegressor.predict", "C17")
+@query_frame("self")
 class Predict(Contract):
     """predict is the mean of the individual predictions: (1/m) * sum_i predict_i(x); hence it lies between any bounds of them"""
 
@@ -244,6 +247,7 @@ class Predict(Contract):
 
 
 @contract(F + "::IntervalRegressor.predict_sorted", "C17")
+@query_frame("self")
 class PredictSorted(Contract):
     def setup(self, E, v):
         n, d = E.size("n", 0), E.size("d", 1)
